@@ -25,7 +25,7 @@ from c01 import exact_vstar
 
 INFO = {
     "level": "proof",
-    "coq_files": ["model/PBVI.v"],
+    "coq_files": ["model/PBVI.v", "theory/PBVIFullObs.v"],
     "trusted_base": [
         "model/PBVI.v functions are evaluated on Q (NumQ) and bigQ (NumB); theorems are on R; tied by paramcoq transfer (theory/PBVITransfer.v, theory/PBVIMain.v)",
         "generated parameters (gamma, probabilities, rewards) reach the model exactly and msdm as nearest doubles; msdm's alpha vectors, Q tables, belief sets and thresholds enter Coq as the exact rationals of the floats",
@@ -40,7 +40,7 @@ INFO = {
 
 PRE = """From Coq Require Import QArith List Bool.
 From Bignums Require Import BigQ.
-From MSDM Require Import base.Num base.NumInst model.MDP model.POMDP model.PBVI.
+From MSDM Require Import base.Num base.NumInst model.MDP model.POMDP model.PBVI theory.PBVIFullObs.
 Import ListNotations.
 Local Open Scope Q_scope.
 Definition mkp nS nA nO P R ab ini g Ob := @mk_pomdp Q NumQ nS nA nO P R ab ini g Ob.
@@ -85,10 +85,11 @@ Definition pb_pt p tol k j G Qs Qt slackon tub (u : list Q) :=
    cross p tol tub j G Qs u, snd (le_tab p tol Qt slackon tub j G u),
    qz (@alpha_valueF Q NumQ p G u)).
 (* jq = Some j: use the exact j-step QMDP table; None: the optimal table Qs with slack tail j *)
-Definition pb_rep p tol ptol k j (exactj : bool) (tub : option Q) G Qs es pts :=
+(* closedF = hypothesis of theorem C08_fully_observable_pbvi(_checked), on the whole recorded belief set *)
+Definition pb_rep p tol ptol k j (exactj : bool) (tub : option Q) G Qs es pts Ball :=
   let Qt := if exactj then qtab p j else Qs in
   let slackon := negb exactj in
-  (@wfpomdpb Q NumQ p, @fullobsb Q NumQ p, map (pb_one p tol ptol k j G Qs Qt slackon tub) es,
+  (@wfpomdpb Q NumQ p, (@fullobsb Q NumQ p, @closedF Q NumQ p Ball), map (pb_one p tol ptol k j G Qs Qt slackon tub) es,
    map (pb_pt p tol k j G Qs Qt slackon tub) pts).
 Definition q_one p tol ptol k Qt (e : list Q * (list Q * list Q)) :=
   let u := fst e in
@@ -673,9 +674,9 @@ def run(ctx):
                                        for s2 in range(n) if not mk2[s2] for a in range(nA)])
                     exact_tail = g ** j * M2 / (1 - g)
                     tub = "(Some %s)" % q(F(-((-exact_tail.numerator * 2**100) // exact_tail.denominator), 2**100))   # rounded UP
-                terms.append("pb_rep %s %s %s %s %s %s %s %s %s %s %s" % (
+                terms.append("pb_rep %s %s %s %s %s %s %s %s %s %s %s %s" % (
                     pt, q(tolp), q(ptol), nat(k), nat(j), vlib.b(j <= (5 if heavy(case) else 25)), tub, qmat(G), qmat(Qs),
-                    entries(beliefs, pb["queries"]), qmat(pts)))
+                    entries(beliefs, pb["queries"]), qmat(pts), qmat(B)))
                 meta.append(("pb", i))
                 ents = rep_entries(pb["queries"])
                 if ents:
@@ -746,7 +747,7 @@ def run(ctx):
         if kind == "pb":
             tol = info[i].get("tolp", tol)
             pb = res["pbvi"]
-            wf, fullobs, per_b, per_pt = v
+            wf, (fullobs, closed_coq), per_b, per_pt = v
             if not wf:
                 ctx.violation("C08:harness:generated-pomdp-not-well-formed", base, found=False)
                 continue
@@ -802,7 +803,11 @@ def run(ctx):
             B = pb["last_call"]["belief_set"]
             closed = False
             if fullobs:
-                closed = fullobs_closed(pc, B, info[i]["order"])
+                # the theorem's hypothesis closedF, evaluated in Coq; the harness's own rational computation
+                # of the same predicate must agree
+                closed = bool(closed_coq)
+                if closed != fullobs_closed(pc, B, info[i]["order"]):
+                    ctx.violation("C08:harness:closure-predicates-disagree", dict(base, coq=closed_coq), found=False)
                 counters["fullobs_closed_sets"] += int(closed)
             pts = info[i]["pts"]
             g = F(pc["gamma"])
